@@ -61,7 +61,11 @@ def gen_case(rng):
             if which in ('both', 'ref'):
                 ref_e[i] = 0.0
             if which in ('both', 'other'):
-                for o_v, o_e in others:
+                # independently per compared dataset: the patterns of zero
+                # errors of two datasets need not be the same
+                for k, (o_v, o_e) in enumerate(others):
+                    if k and rng.random() < 0.5:
+                        continue
                     o_e[i] = 0.0
                     if rng.random() < 0.5 and which == 'both':
                         o_v[i] = ref_v[i]
